@@ -156,7 +156,11 @@ def sequences(F, fn, loop_k=1, list_len=None):
             continue
         key = tuple(sorted("%s %s %s" % (conn.short(strip_sites(conn.expand_all(ex.interned_rev, k))), c[0], sorted(c[1]) if isinstance(c[1], frozenset) else c[1]) for k, c in p.cons.items()))
         raw = [strip_sites(conn.expand_all(ex.interned_rev, it)) for it in r[1]]
-        out.append((key, [norm_item(ex.interned_rev, it) for it in raw], p, raw))
+        items = [norm_item(ex.interned_rev, it) for it in raw]
+        # an empty vector / array literal built on the path (`opt.map_or_else(Vec::new, ..)` on the None arm) appends no bytes
+        items = [it for it in items if not (it[0] == "src" and isinstance(it[1], str) and
+                                            it[1].replace("*", "").replace("$", "").replace("deref(", "").startswith(("(vec,())", "(arr,())")))]
+        out.append((key, items, p, raw))
     return out, untracked
 
 
